@@ -18,7 +18,13 @@ RULE = ('random cases over operations mix_from (0-4 inlets, Stream/MultiStream i
         'distinct = hash of the serialised case. Second generation (appended cases): separate_out from a multi-phase mixture (single-/multi-phase other with equal or subset phases, other-case label, own/foreign '
         'package, the mixture itself, -= form), copy_flow(remove=True) with IDs the source does not list, onto multi-phase destinations of an equal-IDs-but-distinct / foreign package, between different phase sets, '
         'operator forms a+b, sum([..]), a+=b, (a+b)-=b, -a, a/=k, mix_from(conserve_phases=True / vle=True), phase views of the receiver among the inlets, multi-phase split_to into foreign-package outlets, '
-        'single-phase split_to into multi-phase outlets, Stream.sum over 0-4 streams of any kind and phase, MultiStream.from_streams')
+        'single-phase split_to into multi-phase outlets, Stream.sum over 0-4 streams of any kind and phase, MultiStream.from_streams. '
+        'Third generation (appended cases): HISTORIES of one subject stream (multi- or single-phase, built by the constructor or from_streams) through 3-12 steps: state is handed out / cached first '
+        '(phase views ms[p], iteration, an earlier split, streams linked to a view or to the stream, proxy, flow_proxy, the mass indexer), the subject then receives content (copy_like, mix_from with exactly one '
+        'non-empty inlet among empties / several inlets / itself / its own views, energy balance on and off, copy_flow in and out with removal, separate_out of a part, scale, imol assignments, phases extension, '
+        'being an outlet of another split, writes through a view: mix_from / copy_flow(remove) / scale / copy_like on ms[p]; optionally made on a proxy / flow_proxy / linked stream), and is then judged '
+        'THROUGH the handed-out state: MultiStream.split_to into kept (stale) or fresh outlets, views / linked / given streams as inlets of mix_from and Stream.sum, as source of copy_flow(remove=True), as feed of '
+        'split_to, flows read through imass; every expectation comes from a dense ledger of the subject\'s own flow data taken just before the call; a history ends at its first violated step')
 MIN_NONTRIVIAL = {'quick': 500, 'thorough': 20000}
 ASSUMPTIONS = ['receiver package lists every chemical of the inlets (the quantifier of C01)',
                'energy balance is switched on only for liquid/gas streams at 280-400 K (energy itself is C02)',
@@ -41,7 +47,13 @@ def required(tier):
             'split:multi-phase', 'split:foreign-outlet', 'move:multi-phase',
             'separate:multi-phase-mixture', 'separate:multi-phase-mixture/multi-other', 'separate:multi-phase-mixture/foreign', 'separate:self', 'separate:isub',
             'move:ids-not-in-source', 'move:twin', 'move:phase-sets', 'mix:operator-add', 'mix:operator-builtin-sum', 'mix:operator-iadd', 'mix:conserve', 'mix:conserve/energy-balance',
-            'mix:vle', 'mix:rview', 'split:multi-phase/foreign-outlet', 'split:single-to-multi', 'sum:no-streams', 'sum:multi-phase-inlets', 'sum:from_streams', 'scale:neg', 'scale:itruediv']
+            'mix:vle', 'mix:rview', 'split:multi-phase/foreign-outlet', 'split:single-to-multi', 'sum:no-streams', 'sum:multi-phase-inlets', 'sum:from_streams', 'scale:neg', 'scale:itruediv',
+            'hist', 'hist:from_streams', 'hist:touch/views', 'hist:touch/split', 'hist:touch/link', 'hist:touch/proxy', 'hist:touch/flow_proxy', 'hist:touch/imass',
+            'hist:receive/copy_like', 'hist:receive/mix', 'hist:receive/mix-single-nonempty-inlet/energy-balance', 'hist:receive/move', 'hist:receive/drain', 'hist:receive/scale', 'hist:receive/sep',
+            'hist:receive/outlet', 'hist:receive/phases', 'hist:receive/view-write-judged', 'hist:receive-on-alias',
+            'hist:judge-after-receive/split', 'hist:judge-after-receive/via-mix', 'hist:judge-after-receive/via-move', 'hist:judge-after-receive/via-split', 'hist:judge-after-receive/via-sum',
+            'hist:judge-after-receive/mass', 'hist:via-view', 'hist:via-linked', 'hist:via-proxy', 'hist:via-flow_proxy', 'hist:via-given',
+            'hist:views-cached/received-from-same-phases-stream/judged-through-views']
 
 
 UNDEF = (tmo.exceptions.UndefinedPhase, tmo.exceptions.UndefinedChemicalAlias) if hasattr(tmo, 'exceptions') else ()
@@ -906,8 +918,731 @@ def run_scale2(case, rec):
     if len(b) >= 2: rec.mark_nontrivial(case_hash(case))
 
 
+
+# ---------------------------------------------------------------------------
+# third generation: HISTORIES.  One subject stream lives through a sequence of steps; every operation of the property is judged at every step against a
+# dense ledger of the subject's own flow data taken immediately before the call.  What the earlier generations never drew: the subject is operated on AFTER
+# state derived from it was cached or handed out (its phase views ms[phase] / iteration, streams linked to a view or to the stream, proxy / flow_proxy,
+# the streams a MultiStream was assembled from with from_streams, the mass-flow indexer) and AFTER it received new content through some other operation
+# (copy_like, mix_from with exactly one non-empty inlet / several inlets / itself, copy_flow in either direction, separate_out, scale, being the outlet of
+# a split, a phases extension, writes through a phase view).  The judged operations then go through that cached state: MultiStream.split_to (works
+# through the views), a view / linked stream / proxy as an inlet of mix_from and Stream.sum, as the source of copy_flow(remove=True), as the feed of
+# split_to, and as the receiver of mix_from / copy_flow / scale.  An inlet written ms[p] denotes the material of phase p of ms at the time of the call.
+
+HSUBJ_PKGS = [0, 5, 0, 5, 3, 1]
+
+
+def hmulti(s):
+    return isinstance(s, tmo.MultiStream)
+
+
+def hrow(l, ph):
+    return {c: v for (p, c), v in l.items() if p == ph}
+
+
+def hTP(rng, thermal):
+    if not thermal: return 298.15, 101325.
+    return round(rng.uniform(290, 380), 2), rng.choice([101325., 2e5, 5e4])
+
+
+def gen_rel(rng, spkg, thermal, rels, own_pkg=False):
+    """a stream described RELATIVE to the subject's phases at the time it is built: 'same' = multi-phase with exactly the subject's phases, 'subset' = a
+    strict subset of them, 'S' = single-phase in one of them, 'empty' = no flow, 'own' = an independent stream (any phases, own or subset package)."""
+    rel = rng.choice(rels)
+    T, P = hTP(rng, thermal)
+    subs = [k for k in range(len(PKGS)) if set(PKGS[k]) <= set(PKGS[spkg])]
+    if rel == 'own':
+        pkg = spkg if (own_pkg or rng.random() < 0.5) else rng.choice(subs)
+        return {'rel': 'own', 'desc': gen_stream(rng, pkg=pkg, rep=2.5, phases_from='lg' if thermal else PHASES, thermal=thermal)}
+    pkg = spkg if (own_pkg or rel == 'empty' or rng.random() < 0.7) else rng.choice(subs)
+    n = len(PKGS[pkg])
+    rows = [([0.0] * n if (rel == 'empty' or rng.random() < 0.15) else [gflow(rng, 2.5) for _ in range(n)]) for _ in range(5)]
+    return {'rel': rel, 'pkg': pkg, 'rows': rows, 'k': rng.randrange(60), 'T': T, 'P': P}
+
+
+def build_rel(d, subj):
+    if d['rel'] == 'own': return build_stream(d['desc'], PKGS)
+    th = thermo_of(PKGS[d['pkg']]); ids = th.chemicals.IDs
+    phs = list(subj.phases); n = len(phs); k = d['k']; rel = d['rel']
+    phs = phs[k % n:] + phs[:k % n]
+    if rel == 'subset' and n > 1: phs = phs[:1 + (k // 5) % (n - 1)]
+    if rel == 'S' or (rel == 'empty' and k % 2 == 0): phs = phs[:1]
+    if len(phs) == 1:
+        s = tmo.Stream(None, phase=phs[0], T=d['T'], P=d['P'], thermo=th)
+        for i, v in zip(ids, d['rows'][0]):
+            if v: s.imol[i] = v
+    else:
+        s = tmo.MultiStream(None, phases=tuple(phs), T=d['T'], P=d['P'], thermo=th)
+        for ph, row in zip(phs, d['rows']):
+            for i, v in zip(ids, row):
+                if v: s.imol[ph, i] = v
+    return s
+
+
+def gen_hsplit(rng, spkg, multi):
+    n = len(PKGS[spkg])
+    split = rng.choice([0.0, 1.0, 0.5, round(rng.random(), 3)]) if rng.random() < 0.3 else [rng.choice([0.0, 1.0, 0.25, round(rng.random(), 6)]) for _ in range(n)]
+    return {'op': 'split', 'split': split, 'eb': rng.random() < 0.6, 'outs': rng.choice(['keep', 'keep', 'keep', 'S', 'M'] if multi else ['keep', 'keep', 'S'])}
+
+
+def gen_htouch(rng, spkg, multi):
+    how = rng.choice(['views', 'views', 'iter', 'one-view', 'split', 'link', 'link', 'proxy', 'flow_proxy', 'imass'] if multi else ['link', 'link', 'proxy', 'flow_proxy', 'imass', 'split'])
+    if how == 'split': return gen_hsplit(rng, spkg, multi)
+    return {'op': 'touch', 'how': how, 'k': rng.randrange(60)}
+
+
+def gen_hreceive(rng, spkg, thermal, multi):
+    ops = ['copy_like'] * 6 + ['mix'] * 9 + ['copy_flow'] * 3 + ['drain', 'scale', 'set', 'phases'] + ['sep'] * 2 + ['outlet'] * 2 + (['view-write'] * 4 if multi else [])
+    op = rng.choice(ops)
+    n = len(PKGS[spkg])
+    on = rng.random() < 0.2
+    if op == 'phases' and thermal: op = 'scale'
+    if op == 'copy_like':
+        return {'op': op, 'other': gen_rel(rng, spkg, thermal, ['same', 'same', 'same', 'S', 'empty'] if on else ['same', 'same', 'same', 'subset', 'S', 'own', 'empty']), 'on': on}
+    if op == 'mix':
+        if rng.random() < 0.5:
+            # exactly one inlet that may carry material, among empties
+            inlets = [gen_rel(rng, spkg, thermal, ['same', 'same', 'same', 'S', 'subset'] if on else ['same', 'same', 'same', 'S', 'subset', 'own'])]
+            for _ in range(rng.choice([0, 1, 1, 2])): inlets.insert(rng.randrange(len(inlets) + 1), gen_rel(rng, spkg, thermal, ['empty']))
+        else:
+            inlets = []
+            for _ in range(rng.choice([2, 2, 3])):
+                r = rng.random()
+                if r < 0.15: inlets.append('R')
+                elif r < 0.3 and multi: inlets.append({'view': rng.randrange(60)})
+                else: inlets.append(gen_rel(rng, spkg, thermal, ['same', 'S', 'subset', 'empty'] if on else ['same', 'S', 'subset', 'own', 'own', 'empty']))
+        return {'op': op, 'inlets': inlets, 'eb': thermal and not on and rng.random() < 0.7, 'on': on}
+    if op == 'copy_flow':
+        return {'op': op, 'other': gen_rel(rng, spkg, thermal, ['same', 'same', 'S'], own_pkg=True), 'remove': rng.random() < 0.7}
+    if op == 'drain':
+        return {'op': op, 'dst': gen_stream(rng, pkg=spkg, kind='S', thermal=thermal, phases_from='lg' if thermal else PHASES)}
+    if op == 'scale':
+        return {'op': op, 'k': rng.choice([0.0, 2.0, 0.5, round(10 ** rng.uniform(-2, 2), 6)]), 'how': rng.choice(['scale', 'imul']), 'on': on}
+    if op == 'set':
+        return {'op': op, 'rows': [[gflow(rng, 2.5) for _ in range(n)] for _ in range(5)]}
+    if op == 'phases':
+        return {'op': op, 'add': rng.choice(PHASES)}
+    if op == 'sep':
+        return {'op': op, 'frac': [rng.choice([0.0, 0.25, 0.5, 1.0, round(rng.random(), 3)]) for _ in range(5)], 'form': rng.choice(['M', 'M', 'S']), 'k': rng.randrange(60)}
+    if op == 'outlet':
+        sp = gen_hsplit(rng, spkg, multi)
+        return {'op': op, 'feed': gen_rel(rng, spkg, thermal, ['same'], own_pkg=True), 'split': sp['split'], 'eb': sp['eb'], 'second': rng.random() < 0.5}
+    how = rng.choice(['mix', 'mix', 'copy_flow', 'copy_flow', 'scale', 'copy_like', 'set', 'empty'])
+    k = rng.randrange(60)
+    x = gen_rel(rng, spkg, thermal, ['S']); y = gen_rel(rng, spkg, thermal, ['S'])
+    if how == 'copy_like': x['k'] = k
+    return {'op': 'view-write', 'how': how, 'k': k, 'alias': rng.random() < 0.3, 'x': x, 'y': y, 'kk': rng.choice([0.0, 2.0, 0.5, round(10 ** rng.uniform(-2, 2), 6)]),
+            'row': [gflow(rng, 2.5) for _ in range(n)]}
+
+
+def gen_hjudge(rng, spkg, thermal, multi):
+    op = rng.choice(['split'] * 4 + ['via-mix'] * 3 + ['via-move', 'via-move', 'via-split', 'via-split', 'via-sum', 'mass'])
+    if op == 'split': return gen_hsplit(rng, spkg, multi)
+    alias = rng.random() < 0.4
+    if op == 'via-mix':
+        rpkg = rng.choice([k for k in range(len(PKGS)) if set(PKGS[spkg]) <= set(PKGS[k])])
+        return {'op': op, 'via': [rng.randrange(60) for _ in range(rng.choice([1, 1, 2, 3]))], 'alias': alias, 'whole': rng.random() < 0.15,
+                'others': [gen_rel(rng, spkg, thermal, ['own', 'S', 'empty']) for _ in range(rng.choice([0, 0, 1, 1, 2]))],
+                'recv': gen_stream(rng, pkg=rpkg, rep=2.5, phases_from='lg' if thermal else PHASES, thermal=thermal), 'eb': thermal and rng.random() < 0.5}
+    if op == 'via-move':
+        return {'op': op, 'via': rng.randrange(60), 'alias': alias, 'dst': gen_stream(rng, pkg=spkg, kind='S', thermal=thermal, phases_from='lg' if thermal else PHASES)}
+    if op == 'via-split':
+        sp = gen_hsplit(rng, spkg, multi)
+        return {'op': op, 'via': rng.randrange(60), 'alias': alias, 'split': sp['split'], 'eb': sp['eb']}
+    if op == 'via-sum':
+        return {'op': op, 'alias': alias, 'others': [gen_rel(rng, spkg, thermal, ['own', 'S']) for _ in range(rng.choice([0, 1, 1, 2]))]}
+    return {'op': 'mass'}
+
+
+def gen_hist(rng):
+    thermal = rng.random() < 0.4
+    spkg = rng.choice(HSUBJ_PKGS)
+    multi = rng.random() < 0.78
+    T, P = hTP(rng, thermal)
+    if multi:
+        phs = ['l', 'g'] if thermal else rng.sample(list(PHASES), rng.randrange(2, 4))
+        subject = mstream(rng, spkg, phs, rep=2.5, zero_p=0.15)
+        subject['T'] = T; subject['P'] = P
+        made = rng.choice(['ctor', 'ctor', 'ctor', 'ctor', 'from_streams'])
+    else:
+        subject = gen_stream(rng, pkg=spkg, kind='S', rep=2.5, empty_p=0.05, phases_from='lg' if thermal else PHASES, thermal=thermal)
+        made = 'ctor'
+    steps = []
+    for _ in range(rng.choice([1, 1, 2])):
+        if rng.random() < 0.9: steps.append(gen_htouch(rng, spkg, multi))
+        for _ in range(rng.choice([1, 1, 2])): steps.append(gen_hreceive(rng, spkg, thermal, multi))
+        for _ in range(rng.choice([1, 2, 2])): steps.append(gen_hjudge(rng, spkg, thermal, multi))
+    return {'t': 'hist', 'subject': subject, 'made': made, 'thermal': thermal, 'outs_kind': rng.choice('SM') if multi else 'S', 'steps': steps}
+
+
+class HState:
+    def __init__(self, case):
+        d = case['subject']
+        self.aliases = []         # {'kind', 'obj', 'phase' (None = the whole stream), 'phases_at', 'cls'}
+        self.made = case['made']
+        if case['made'] == 'from_streams':
+            th = thermo_of(PKGS[d['pkg']]); ids = th.chemicals.IDs
+            parts = []
+            for ph in d['phases']:
+                s = tmo.Stream(None, phase=ph, T=d['T'], P=d['P'], thermo=th)
+                for i, v in zip(ids, d['flows'][ph]):
+                    if v: s.imol[i] = v
+                parts.append(s)
+            self.subj = tmo.MultiStream.from_streams(parts)
+            for s in parts:
+                self.aliases.append({'kind': 'given', 'obj': s, 'phase': s.phase, 'phases_at': tuple(self.subj.phases), 'cls': type(self.subj)})
+        else:
+            self.subj = build_stream(d, PKGS)
+        self.last = 'construction'
+        self.outs = None
+        self.outs_kind = case['outs_kind']
+        self.thermal = case['thermal']
+        self.received = False
+        self.judged = 0
+        self.views = case['made'] == 'from_streams'      # phase views of the subject exist (cached on it)
+        self.core = False                                # ... and it has since received the content of a multi-phase stream with its own package and phases
+
+    def note_source(self, other, only):
+        s = self.subj
+        if only and self.views and hmulti(s) and hmulti(other) and other.chemicals is s.chemicals and tuple(other.phases) == tuple(s.phases): self.core = True
+
+    def judged_through_views(self, rec):
+        if self.core: rec.hit('hist:views-cached/received-from-same-phases-stream/judged-through-views')
+
+    def ctx(self):
+        return ('multi' if hmulti(self.subj) else 'single') + '-subject/after-' + self.last
+
+    def valid(self, whole=None, phase=None):
+        s = self.subj
+        out = []
+        for a in self.aliases:
+            if a['phases_at'] != tuple(s.phases) or a['cls'] is not type(s): continue     # the stream was rebuilt on other phases since: the hand-out is void
+            if whole is True and a['phase'] is not None: continue
+            if whole is False and a['phase'] is None: continue
+            if phase is not None and a['phase'] != phase: continue
+            out.append(a)
+        return out
+
+    def target(self, step):
+        """the object a receiving call is made on: the subject, or (on=True) something that stands for the whole of it"""
+        if step.get('on'):
+            c = self.valid(whole=True)
+            if c: return c[-1]['obj'], c[-1]['kind']
+        return self.subj, 'self'
+
+    def via(self, k, want_alias, rec):
+        """(object, phase ledger it stands for keyed (phase, CAS), label): a phase view of the subject, something linked to it, or the subject itself if single-phase"""
+        s = self.subj
+        t = phase_ledger(s)
+        if hmulti(s):
+            p = s.phases[k % len(s.phases)]
+            if want_alias:
+                c = self.valid(whole=False, phase=p)
+                if c:
+                    rec.hit('hist:via-' + c[k % len(c)]['kind'])
+                    return c[k % len(c)]['obj'], {kk: v for kk, v in t.items() if kk[0] == p}, c[k % len(c)]['kind']
+            rec.hit('hist:via-view')
+            self.views = True
+            return s[p], {kk: v for kk, v in t.items() if kk[0] == p}, 'view'
+        if want_alias:
+            c = self.valid(whole=True)
+            if c:
+                rec.hit('hist:via-' + c[k % len(c)]['kind'])
+                return c[k % len(c)]['obj'], t, c[k % len(c)]['kind']
+        return s, t, 'self'
+
+
+def h_touch(step, st, rec):
+    s = st.subj; how = step['how']; k = step['k']; multi = hmulti(s)
+    if how == 'proxy' and st.made == 'from_streams': how = 'flow_proxy'       # a stream assembled by from_streams carries no equations attribute for proxy()
+    if not multi and how in ('views', 'iter', 'one-view'): how = 'link'
+    try:
+        if how == 'views': [s[p] for p in s.phases]; st.views = True
+        elif how == 'iter': list(s); st.views = True
+        elif how == 'one-view': s[s.phases[k % len(s.phases)]]; st.views = True
+        elif how == 'link':
+            l = tmo.Stream(None, thermo=s.thermo)
+            if multi:
+                p = s.phases[k % len(s.phases)]
+                l.link_with(s[p]); st.views = True
+            else:
+                p = None
+                l.link_with(s)
+            st.aliases.append({'kind': 'linked', 'obj': l, 'phase': p, 'phases_at': tuple(s.phases), 'cls': type(s)})
+        elif how == 'proxy':
+            st.aliases.append({'kind': 'proxy', 'obj': s.proxy(), 'phase': None, 'phases_at': tuple(s.phases), 'cls': type(s)})
+        elif how == 'flow_proxy':
+            st.aliases.append({'kind': 'flow_proxy', 'obj': s.flow_proxy(), 'phase': None, 'phases_at': tuple(s.phases), 'cls': type(s)})
+        else:
+            s.imass; s.mass
+    except Exception as e:
+        rec.exception('history', e, what=f'{how} on a {"multi" if multi else "single"}-phase stream raised {type(e).__name__}: {str(e)[:150]}'); return False
+    rec.hit('hist:touch/' + how)
+
+
+def h_copy_like(step, st, rec):
+    tgt, tk = st.target(step)
+    other = build_rel(step['other'], st.subj)
+    lo = phase_ledger(other)
+    try:
+        tgt.copy_like(other)
+    except Exception as e:
+        rec.exception('history', e, what=f'copy_like ({st.ctx()}, on {tk}) raised {type(e).__name__}: {str(e)[:150]}'); return False
+    bb, _ = ledger_diff(sled(phase_ledger(other)), sled(lo), rel=0)
+    rec.check(not bb, 'mix', f'history/inlet-changed/copy_like/{st.ctx()}', f'copy_like changed the stream copied from: {bb[:3]}')
+    st.note_source(other, True)
+    st.last = 'copy_like' + ('' if tk == 'self' else '-on-' + tk); st.received = True
+    rec.hit('hist:receive/copy_like')
+    if tk != 'self': rec.hit('hist:receive-on-alias')
+
+
+def h_mix(step, st, rec):
+    s = st.subj
+    tgt, tk = st.target(step)
+    t0 = phase_ledger(s)
+    objs = []; exp = []; free = []
+    for d in step['inlets']:
+        if d == 'R': objs.append(tgt); exp.append(collapse(t0))
+        elif 'view' in d:
+            if not hmulti(s): continue
+            p = s.phases[d['view'] % len(s.phases)]
+            objs.append(s[p]); exp.append(hrow(t0, p))
+        else:
+            o = build_rel(d, s); objs.append(o); exp.append(ledger(o)); free.append((o, phase_ledger(o)))
+    expected = ledger_add(*exp) if exp else {}
+    n_nonempty = sum(1 for e in exp if e)
+    eb = step['eb'] and tk == 'self'
+    mech = f'{st.ctx()}' + ('/on-' + tk if tk != 'self' else '') + ('/energy-balance' if eb else '') + ('/single-nonempty-inlet' if n_nonempty == 1 else '')
+    try:
+        tgt.mix_from(objs, energy_balance=eb)
+    except Exception as e:
+        if eb and not_material(e, rec): return False
+        rec.exception('mix', e, what=f'mix_from({len(objs)} inlets; history: {mech}) raised {type(e).__name__}: {str(e)[:150]}'); return False
+    got = ledger(s)
+    bad, worst = ledger_diff(got, expected, rel=1e-12)
+    rec.check(not bad, 'mix', f'history/sum/{mech}', f'mix_from in a history ({mech}): per-chemical totals of the receiver differ from the sum of the inlets: {bad[:4]}', residual=worst,
+              detail={'expected': expected, 'got': got})
+    for o, b in free:
+        bb, _ = ledger_diff(sled(phase_ledger(o)), sled(b), rel=0)
+        rec.check(not bb, 'mix', f'history/inlet-changed/{st.ctx()}', f'mix_from changed an inlet: {bb[:3]}')
+    check_inv(rec, [s] + [o for o, _ in free], 'mix')
+    for o, b in free:
+        if b: st.note_source(o, n_nonempty == 1 and eb)
+    st.last = ('mix-single-nonempty-inlet' if n_nonempty == 1 else 'mix') + ('' if tk == 'self' else '-on-' + tk); st.received = True
+    rec.hit('hist:receive/mix')
+    if n_nonempty == 1 and eb: rec.hit('hist:receive/mix-single-nonempty-inlet/energy-balance')
+    if tk != 'self': rec.hit('hist:receive-on-alias')
+
+
+def h_copy_flow(step, st, rec):
+    """the whole of another stream (same package; the subject's phases or one of them) is copied / moved into the subject"""
+    s = st.subj
+    other = build_rel(step['other'], s)
+    ob, sb = phase_ledger(other), phase_ledger(s)
+    remove = step['remove']
+    tag = f'{st.ctx()}/' + ('multi' if hmulti(other) else 'single') + '-source'
+    try:
+        s.copy_flow(other, remove=remove)
+    except Exception as e:
+        rec.exception('move', e, what=f'copy_flow(remove={remove}; history: {tag}) raised {type(e).__name__}: {str(e)[:150]}'); return False
+    sa, oa = phase_ledger(s), phase_ledger(other)
+    if remove:
+        if hmulti(s): bad, _ = ledger_diff(sled(sa), sled(ob), rel=0)
+        else: bad, _ = ledger_diff(collapse(sa), collapse(ob), rel=1e-12)
+        rec.check(not bad and not oa, 'move', f'history/whole-stream-into-subject/{tag}', f'copy_flow(other, remove=True) in a history: the subject does not hold exactly what the source held, or the source is not empty: {bad[:4]} source after: {sled(oa)}',
+                  detail={'src_before': sled(ob), 'dst_before': sled(sb), 'src_after': sled(oa), 'dst_after': sled(sa)})
+        rec.hit('hist:receive/move')
+    check_inv(rec, [s, other], 'move')
+    st.last = 'copy_flow'; st.received = True
+    rec.hit('hist:receive/copy_flow')
+
+
+def h_drain(step, st, rec):
+    """the subject is the SOURCE of a move: everything goes to a single-phase destination of the same package"""
+    s = st.subj
+    dst = build_stream(step['dst'], PKGS)
+    sb = phase_ledger(s)
+    try:
+        dst.copy_flow(s, remove=True)
+    except Exception as e:
+        rec.exception('move', e, what=f'copy_flow(subject, remove=True) ({st.ctx()}) raised {type(e).__name__}: {str(e)[:150]}'); return False
+    sa = phase_ledger(s)
+    bad, _ = ledger_diff(ledger(dst), collapse(sb), rel=1e-12)
+    rec.check(not bad and not sa, 'move', f'history/subject-drained/{st.ctx()}', f'dst.copy_flow(subject, remove=True): destination differs from what the subject held, or the subject is not empty: {bad[:4]}; left: {sled(sa)}')
+    check_inv(rec, [s, dst], 'move')
+    st.last = 'drain'; st.received = True
+    rec.hit('hist:receive/drain')
+
+
+def h_scale(step, st, rec):
+    s = st.subj
+    tgt, tk = st.target(step)
+    b = phase_ledger(s); k = step['k']
+    try:
+        if step['how'] == 'scale': tgt.scale(k)
+        else: tgt *= k
+    except Exception as e:
+        rec.exception('scale', e, what=f'{step["how"]}({k}) ({st.ctx()}) raised {type(e).__name__}: {str(e)[:150]}'); return False
+    exp = {kk: v * k for kk, v in b.items() if v * k}
+    bad, worst = ledger_diff(sled(phase_ledger(s)), sled(exp), rel=1e-15)
+    rec.check(not bad, 'scale', f'history/{step["how"]}/{st.ctx()}' + ('/on-' + tk if tk != 'self' else ''), f'{step["how"]} by {k} in a history: flows are not k times the original: {bad[:4]}', residual=worst)
+    check_inv(rec, [s], 'scale')
+    st.last = 'scale' + ('' if tk == 'self' else '-on-' + tk); st.received = True
+    rec.hit('hist:receive/scale')
+    if tk != 'self': rec.hit('hist:receive-on-alias')
+
+
+def h_set(step, st, rec):
+    s = st.subj
+    ids = s.chemicals.IDs
+    try:
+        s.empty()
+        if hmulti(s):
+            for ph, row in zip(s.phases, step['rows']):
+                for i, v in zip(ids, row):
+                    if v: s.imol[ph, i] = v
+        else:
+            for i, v in zip(ids, step['rows'][0]):
+                if v: s.imol[i] = v
+    except Exception as e:
+        rec.exception('history', e, what=f'empty() and imol assignments ({st.ctx()}) raised {type(e).__name__}: {str(e)[:150]}'); return False
+    st.last = 'set'; st.received = True
+    rec.hit('hist:receive/set')
+
+
+def h_phases(step, st, rec):
+    s = st.subj
+    try:
+        s.phases = tuple(s.phases) + (step['add'],)
+    except Exception as e:
+        rec.exception('history', e, what=f'phases extension ({st.ctx()}) raised {type(e).__name__}: {str(e)[:150]}'); return False
+    st.last = 'phases'; st.received = True
+    rec.hit('hist:receive/phases')
+
+
+def h_sep(step, st, rec):
+    """a part of what the subject holds (a fraction of every phase, or of one phase) is built as a stream of its own and separated out"""
+    s = st.subj
+    t0 = phase_ledger(s)
+    if not t0: rec.refuse('history: nothing to separate out of an empty subject'); return
+    cas = list(s.chemicals.CASs); ids = s.chemicals.IDs
+    phs = list(s.phases)
+    if step['form'] == 'S' or not hmulti(s):
+        p = phs[step['k'] % len(phs)]
+        part = tmo.Stream(None, phase=p, thermo=s.thermo)
+        f = step['frac'][0]
+        for (ph, c), v in t0.items():
+            if ph == p and v * f: part.imol[ids[cas.index(c)]] = v * f
+    else:
+        part = tmo.MultiStream(None, phases=tuple(phs), thermo=s.thermo)
+        for (ph, c), v in t0.items():
+            f = step['frac'][phs.index(ph) % 5]
+            if v * f: part.imol[ph, ids[cas.index(c)]] = v * f
+    lp = phase_ledger(part)
+    tag = f'{st.ctx()}/' + ('multi' if hmulti(part) else 'single') + '-phase-other'
+    try:
+        s.separate_out(part, energy_balance=False)
+    except Exception as e:
+        rec.exception('separate', e, what=f'separate_out (history: {tag}) raised {type(e).__name__}: {str(e)[:150]}'); return False
+    scale = max([abs(v) for v in t0.values()] + [0.0])
+    if hmulti(s):
+        exp = {kk: v - lp.get(kk, 0.0) for kk, v in t0.items()}
+        got = phase_ledger(s)
+    else:
+        lpc = collapse(lp)
+        exp = {kk: v - lpc.get(kk[1], 0.0) for kk, v in t0.items()}
+        got = phase_ledger(s)
+    bad, _ = ledger_diff(sled(got), sled(exp), rel=0.0, abs_=1e-9 * scale)
+    rec.check(not bad, 'separate', f'history/remainder/{tag}', f'separate_out in a history: the remainder differs from subject - part: {bad[:4]}', detail={'subject': sled(t0), 'part': sled(lp), 'got': sled(got)})
+    bb, _ = ledger_diff(sled(phase_ledger(part)), sled(lp), rel=0)
+    rec.check(not bb, 'separate', f'history/other-changed/{tag}', 'separate_out changed the stream that was separated out')
+    # tiny negative residues of v - v*f are emptied so that the history goes on inside the quantifier (non-negative flows)
+    if any(v < 0 for v in got.values()): s.empty_negative_flows() if hasattr(s, 'empty_negative_flows') else None
+    st.last = 'separate_out'; st.received = True
+    rec.hit('hist:receive/sep')
+
+
+def hsplit_judge(rec, feed, fb, s1, s2, split, eb, mech, st=None, outlet_only=None):
+    """feed.split_to(s1, s2, split): fb is the phase ledger (phase, CAS) the feed stands for"""
+    cas = list(feed.chemicals.CASs)
+    sp_arr = np.array(split, dtype=float) if isinstance(split, list) else split
+    multi = hmulti(feed)
+    try:
+        feed.split_to(s1, s2, sp_arr, energy_balance=eb)
+    except ValueError as e:
+        if not multi and not eb and (hmulti(s1) or hmulti(s2)) and 'read-only' in str(e):
+            rec.refuse('single-phase split_to(energy_balance=False) into a multi-phase outlet: read-only total flow'); return None
+        rec.exception('split', e, what=f'split_to (history: {mech}) raised {type(e).__name__}: {str(e)[:150]}'); return False
+    except Exception as e:
+        rec.exception('split', e, what=f'split_to (history: {mech}) raised {type(e).__name__}: {str(e)[:150]}'); return False
+    def sp_of(c):
+        return split[cas.index(c)] if isinstance(split, list) else split
+    e1 = {}; e2 = {}
+    for (ph, c), v in fb.items():
+        a = v * sp_of(c)
+        e1[(ph, c)] = a; e2[(ph, c)] = v - a
+    fc = {}
+    for (ph_, c_), v_ in fb.items(): fc[c_] = fc.get(c_, 0.0) + abs(v_)
+    for name, s, e in (('s1', s1, e1), ('s2', s2, e2)):
+        if hmulti(s) and multi:
+            got = sled(phase_ledger(s)); exp = sled(e)
+        else:
+            got = ledger(s); exp = collapse(e)
+        bad, worst = ledger_diff(got, exp, rel=1e-12, abs_=0.0)
+        if bad:
+            # rounding floor of the remainder: a few ulps of the feed of that chemical (see the first split clause)
+            bad = [(k_, x_, y_) for k_, x_, y_ in bad if abs(x_ - y_) > 1e-12 * max(abs(x_), abs(y_)) + 8 * 2.220446049250313e-16 * max([v_ for c_, v_ in fc.items() if c_ in str(k_)] + [0.0])]
+        rec.check(not bad, 'split', f'history/{name}/{mech}', f'split_to in a history ({mech}): {name} differs from {"split*feed" if name == "s1" else "feed-split*feed"}: {bad[:4]}', residual=worst,
+                  detail={'feed': sled(fb), 'expected': exp, 'got': got})
+    return True
+
+
+def h_outs(step, st):
+    s = st.subj
+    def fresh(kind):
+        if kind == 'M' and hmulti(s): return tmo.MultiStream(None, phases=tuple(s.phases), thermo=s.thermo)
+        return tmo.Stream(None, phase=s.phases[0], thermo=s.thermo)
+    if step['outs'] == 'keep':
+        # kept outlets may hold stale content only in phases of the feed (ASSUMPTIONS): a subject rebuilt on other phases gets new ones
+        if st.outs is not None and not all(set(o.phases) <= set(s.phases) for o in st.outs): st.outs = None
+        if st.outs is None: st.outs = (fresh(st.outs_kind), fresh(st.outs_kind))
+        return st.outs
+    return fresh(step['outs']), fresh(step['outs'])
+
+
+def h_split(step, st, rec):
+    s = st.subj
+    fb = phase_ledger(s)
+    s1, s2 = h_outs(step, st)
+    mech = f'{st.ctx()}/' + ('kept' if step['outs'] == 'keep' else 'fresh') + '-outlets' + ('/energy-balance' if step['eb'] else '')
+    r = hsplit_judge(rec, s, fb, s1, s2, step['split'], step['eb'], mech)
+    if r is False: return False
+    bb, _ = ledger_diff(sled(phase_ledger(s)), sled(fb), rel=0)
+    rec.check(not bb, 'split', f'history/feed-changed/{st.ctx()}', f'split_to changed the feed: {bb[:3]}')
+    check_inv(rec, [s, s1, s2], 'split')
+    if r:
+        rec.hit('hist:judge/split')
+        if st.received: rec.hit('hist:judge-after-receive/split'); st.judged += 1
+        if hmulti(s) and (step['eb'] or hmulti(s1) or hmulti(s2)):
+            st.judged_through_views(rec)
+            rec.hit('hist:touch/split'); st.views = True      # MultiStream.split_to itself goes through (and caches) the phase views
+
+
+def h_outlet(step, st, rec):
+    """the subject is an OUTLET of the split of another stream with the subject's phases and package"""
+    s = st.subj
+    feed = build_rel(step['feed'], s)
+    fb = phase_ledger(feed)
+    other = tmo.MultiStream(None, phases=tuple(s.phases), thermo=s.thermo) if (hmulti(s) and step['second']) else tmo.Stream(None, phase=s.phases[0], thermo=s.thermo)
+    first = not step['second']
+    s1, s2 = (s, other) if first else (other, s)
+    mech = f'{st.ctx()}/subject-is-' + ('s1' if first else 's2') + ('/energy-balance' if step['eb'] else '')
+    r = hsplit_judge(rec, feed, fb, s1, s2, step['split'], step['eb'], mech)
+    if r is False: return False
+    bb, _ = ledger_diff(sled(phase_ledger(feed)), sled(fb), rel=0)
+    rec.check(not bb, 'split', f'history/feed-changed/{st.ctx()}', f'split_to changed the feed: {bb[:3]}')
+    check_inv(rec, [s, feed, other], 'split')
+    if r:
+        st.last = 'being-split-outlet'; st.received = True
+        rec.hit('hist:receive/outlet')
+
+
+def h_view_write(step, st, rec):
+    s = st.subj
+    if not hmulti(s): return
+    how = step['how']; k = step['k']
+    p = s.phases[k % len(s.phases)]
+    v, _, vk = st.via(k, step['alias'], rec)
+    t0 = phase_ledger(s)
+    rest0 = {kk: x for kk, x in t0.items() if kk[0] != p}
+    dx, dy = step['x'], step['y']
+    if st.made == 'from_streams':
+        # the views of a stream assembled by from_streams are the caller's own streams, whose phase label is not locked: a single-phase receiver takes over the
+        # phase of its inlets when they agree, so the inlets written through such a view are kept in the view's own phase (labels are not C01's concern)
+        dx = dict(dx, k=k); dy = dict(dy, k=k)
+    x = build_rel(dx, s); y = build_rel(dy, s)
+    lx, ly = ledger(x), ledger(y)
+    tag = f'{how}/{st.ctx()}/through-{vk}'
+    try:
+        if how == 'mix': v.mix_from([x, y], energy_balance=False); exp = ledger_add(lx, ly); clause = 'mix'; rel = 1e-12
+        elif how == 'copy_flow': v.copy_flow(x, remove=True); exp = lx; clause = 'move'; rel = 1e-12
+        elif how == 'scale': v.scale(step['kk']); exp = {c: q * step['kk'] for c, q in hrow(t0, p).items() if q * step['kk']}; clause = 'scale'; rel = 1e-15
+        elif how == 'copy_like': v.copy_like(x); exp = None
+        elif how == 'empty': v.empty(); exp = None
+        else:
+            for i, q in zip(s.chemicals.IDs, step['row']): v.imol[i] = q
+            exp = None
+    except Exception as e:
+        rec.exception('history' if how in ('copy_like', 'empty', 'set') else {'mix': 'mix', 'copy_flow': 'move', 'scale': 'scale'}[how], e,
+                      what=f'{how} on a phase view of the subject ({tag}) raised {type(e).__name__}: {str(e)[:150]}'); return False
+    t1 = phase_ledger(s)
+    if exp is not None:
+        bad, worst = ledger_diff(hrow(t1, p), exp, rel=rel)
+        ok = not bad and (how != 'copy_flow' or not ledger(x))
+        rec.check(ok, clause, f'history/view-write/{tag}', f'{how} made on {vk} of phase {p!r} of a multi-phase stream: that phase of the stream does not hold the result: {bad[:4]}', residual=worst,
+                  detail={'expected': exp, 'got': hrow(t1, p)})
+        rec.hit('hist:receive/view-write-judged')
+    bb, _ = ledger_diff(sled({kk: q for kk, q in t1.items() if kk[0] != p}), sled(rest0), rel=0)
+    rec.check(not bb, {'mix': 'mix', 'copy_flow': 'move', 'scale': 'scale'}.get(how, 'mix'), f'history/view-write-other-phases/{tag}', f'{how} on the view of phase {p!r} changed other phases of the stream: {bb[:3]}')
+    check_inv(rec, [s, x, y], 'mix')
+    st.last = 'view-' + how; st.received = True
+    rec.hit('hist:receive/view-write')
+
+
+def h_via_mix(step, st, rec):
+    s = st.subj
+    t0 = phase_ledger(s)
+    recv = build_stream(step['recv'], PKGS)
+    objs = []; exp = []; kinds = []; free = []
+    if step['whole']:
+        c = st.valid(whole=True) if step['alias'] else []
+        if c: objs.append(c[0]['obj']); kinds.append(c[0]['kind']); rec.hit('hist:via-' + c[0]['kind'])
+        else: objs.append(s); kinds.append('self')
+        exp.append(collapse(t0))
+    else:
+        seen = set()
+        for k in step['via']:
+            o, l, kind = st.via(k, step['alias'], rec)
+            if id(o) in seen: continue
+            seen.add(id(o)); objs.append(o); exp.append(collapse(l)); kinds.append(kind)
+    for d in step['others']:
+        o = build_rel(d, s); objs.append(o); exp.append(ledger(o)); free.append((o, phase_ledger(o)))
+    expected = ledger_add(*exp)
+    eb = step['eb']
+    n_nonempty = sum(1 for e in exp if e)
+    mech = f'{st.ctx()}/inlet-' + '+'.join(sorted(set(kinds))) + ('/energy-balance' if eb else '') + ('/single-nonempty-inlet' if n_nonempty == 1 else '')
+    try:
+        recv.mix_from(objs, energy_balance=eb)
+    except Exception as e:
+        if eb and not_material(e, rec): return False
+        rec.exception('mix', e, what=f'mix_from (history: {mech}) raised {type(e).__name__}: {str(e)[:150]}'); return False
+    got = ledger(recv)
+    bad, worst = ledger_diff(got, expected, rel=1e-12)
+    rec.check(not bad, 'mix', f'history/sum-of-handed-out-inlets/{mech}', f'mix_from with phase views / linked streams of a stream with a history as inlets ({mech}): totals differ from the sum of what the inlets stand for: {bad[:4]}',
+              residual=worst, detail={'expected': expected, 'got': got, 'subject': sled(t0)})
+    bb, _ = ledger_diff(sled(phase_ledger(s)), sled(t0), rel=0)
+    rec.check(not bb, 'mix', f'history/inlet-changed/{st.ctx()}', f'mix_from changed the stream whose views were inlets: {bb[:3]}')
+    for o, b in free:
+        bb, _ = ledger_diff(sled(phase_ledger(o)), sled(b), rel=0)
+        rec.check(not bb, 'mix', f'history/inlet-changed/{st.ctx()}', f'mix_from changed an inlet: {bb[:3]}')
+    check_inv(rec, [recv, s], 'mix')
+    rec.hit('hist:judge/via-mix')
+    if st.received: rec.hit('hist:judge-after-receive/via-mix'); st.judged += 1
+    if hmulti(s): st.judged_through_views(rec)
+
+
+def h_via_move(step, st, rec):
+    s = st.subj
+    t0 = phase_ledger(s)
+    src, l, kind = st.via(step['via'], step['alias'], rec)
+    dst = build_stream(step['dst'], PKGS)
+    mech = f'{st.ctx()}/source-{kind}'
+    try:
+        dst.copy_flow(src, remove=True)
+    except Exception as e:
+        rec.exception('move', e, what=f'copy_flow(remove=True) from a {kind} (history: {mech}) raised {type(e).__name__}: {str(e)[:150]}'); return False
+    t1 = phase_ledger(s)
+    bad, _ = ledger_diff(ledger(dst), collapse(l), rel=1e-12)
+    left = {kk: v for kk, v in t1.items() if kk in l}
+    rest_b, _ = ledger_diff(sled({kk: v for kk, v in t1.items() if kk not in l}), sled({kk: v for kk, v in t0.items() if kk not in l}), rel=0)
+    rec.check(not bad and not left and not rest_b, 'move', f'history/from-handed-out-source/{mech}',
+              f'dst.copy_flow(x, remove=True) with x a {kind} of a stream with a history: destination differs from what x stands for {bad[:4]}, or that material is still in the stream {sled(left)}, or other phases changed {rest_b[:3]}',
+              detail={'subject_before': sled(t0), 'subject_after': sled(t1), 'dst_after': ledger(dst)})
+    check_inv(rec, [s, dst], 'move')
+    rec.hit('hist:judge/via-move')
+    if st.received: rec.hit('hist:judge-after-receive/via-move'); st.judged += 1
+    if hmulti(s): st.judged_through_views(rec)
+    st.last = 'moved-out-through-' + kind; st.received = True
+
+
+def h_via_split(step, st, rec):
+    s = st.subj
+    t0 = phase_ledger(s)
+    feed, l, kind = st.via(step['via'], step['alias'], rec)
+    a = tmo.Stream(None, phase=s.phases[0], thermo=s.thermo); b = tmo.Stream(None, phase=s.phases[0], thermo=s.thermo)
+    mech = f'{st.ctx()}/feed-{kind}' + ('/energy-balance' if step['eb'] else '')
+    r = hsplit_judge(rec, feed, l, a, b, step['split'], step['eb'], mech)
+    if r is False: return False
+    bb, _ = ledger_diff(sled(phase_ledger(s)), sled(t0), rel=0)
+    rec.check(not bb, 'split', f'history/feed-changed/{st.ctx()}', f'split_to of a {kind} changed the stream: {bb[:3]}')
+    check_inv(rec, [s, a, b], 'split')
+    if r:
+        rec.hit('hist:judge/via-split')
+        if st.received: rec.hit('hist:judge-after-receive/via-split'); st.judged += 1
+        if hmulti(s): st.judged_through_views(rec)
+
+
+def h_via_sum(step, st, rec):
+    s = st.subj
+    t0 = phase_ledger(s)
+    objs = []; exp = []; kinds = []
+    if hmulti(s):
+        for k in range(len(s.phases)):
+            o, l, kind = st.via(k, step['alias'], rec)
+            objs.append(o); exp.append(collapse(l)); kinds.append(kind)
+    else:
+        o, l, kind = st.via(0, step['alias'], rec)
+        objs.append(o); exp.append(collapse(l)); kinds.append(kind)
+    for d in step['others']:
+        o = build_rel(d, s); objs.append(o); exp.append(ledger(o))
+    mech = f'{st.ctx()}/' + '+'.join(sorted(set(kinds)))
+    try:
+        new = tmo.Stream.sum(objs, None, s.thermo, energy_balance=False)
+    except Exception as e:
+        rec.exception('sum', e, what=f'Stream.sum (history: {mech}) raised {type(e).__name__}: {str(e)[:150]}'); return False
+    bad, worst = ledger_diff(ledger(new), ledger_add(*exp), rel=1e-12)
+    rec.check(not bad, 'sum', f'history/handed-out-streams/{mech}', f'Stream.sum over the phase views / linked streams of a stream with a history ({mech}) differs from the sum of what they stand for: {bad[:4]}', residual=worst)
+    bb, _ = ledger_diff(sled(phase_ledger(s)), sled(t0), rel=0)
+    rec.check(not bb, 'sum', f'history/inlet-changed', f'Stream.sum changed the stream whose views were summed: {bb[:3]}')
+    check_inv(rec, [new, s], 'sum')
+    rec.hit('hist:judge/via-sum')
+    if st.received: rec.hit('hist:judge-after-receive/via-sum'); st.judged += 1
+    if hmulti(s): st.judged_through_views(rec)
+
+
+def h_mass(step, st, rec):
+    """the flows read in mass units (the mass indexer is cached on the molar one and refers to its data) are the molar flows times MW"""
+    s = st.subj
+    t0 = phase_ledger(s)
+    MW = s.chemicals.MW; cas = s.chemicals.CASs
+    try:
+        arr = np.asarray(s.imass.data.to_array(), dtype=float)
+    except Exception as e:
+        rec.exception('history', e, what=f'reading imass ({st.ctx()}) raised {type(e).__name__}: {str(e)[:150]}'); return False
+    got = {}
+    if arr.ndim == 2:
+        for i, ph in enumerate(s.phases):
+            for j, v in enumerate(arr[i]):
+                if v: got[(ph, cas[j])] = v / MW[j]
+    else:
+        for j, v in enumerate(arr):
+            if v: got[(s.phase, cas[j])] = v / MW[j]
+    bad, worst = ledger_diff(sled(got), sled(t0), rel=1e-12)
+    clause = 'mix'
+    for pre, cl in (('copy_flow', 'move'), ('drain', 'move'), ('moved-out', 'move'), ('view-copy_flow', 'move'), ('scale', 'scale'), ('view-scale', 'scale'), ('separate_out', 'separate'), ('being-split', 'split')):
+        if st.last.startswith(pre): clause = cl
+    rec.check(not bad, clause, f'history/mass-reading/{st.ctx()}', f'flows read through imass after {st.last} are not the molar flows times MW: {bad[:4]}', residual=worst)
+    rec.hit('hist:judge/mass')
+    if st.received: rec.hit('hist:judge-after-receive/mass'); st.judged += 1
+
+
+HSTEPS = {'touch': h_touch, 'copy_like': h_copy_like, 'mix': h_mix, 'copy_flow': h_copy_flow, 'drain': h_drain, 'scale': h_scale, 'set': h_set, 'phases': h_phases, 'sep': h_sep,
+          'split': h_split, 'outlet': h_outlet, 'view-write': h_view_write, 'via-mix': h_via_mix, 'via-move': h_via_move, 'via-split': h_via_split, 'via-sum': h_via_sum, 'mass': h_mass}
+
+
+def run_hist(case, rec):
+    st = HState(case)
+    rec.hit('hist')
+    if case['made'] == 'from_streams': rec.hit('hist:from_streams')
+    for step in case['steps']:
+        nv = sum(rec.viol_counts.values())
+        if HSTEPS[step['op']](step, st, rec) is False: break       # an exception was reported or a numerical refusal counted: the history ends here
+        if sum(rec.viol_counts.values()) != nv: break               # what follows a violated step would only repeat it under other names
+    if st.judged and nflowing(ledger(st.subj)) >= 2: rec.mark_nontrivial(case_hash(case))
+
+
 RUNNERS = {'mix': run_mix, 'split': run_split, 'sep': run_separate, 'move': run_move, 'scale': run_scale, 'sum': run_sum,
-           'sep2': run_sep2, 'move2': run_move2, 'op': run_op, 'mix2': run_mix2, 'split2': run_split2, 'sum2': run_sum2, 'scale2': run_scale2}
+           'sep2': run_sep2, 'move2': run_move2, 'op': run_op, 'mix2': run_mix2, 'split2': run_split2, 'sum2': run_sum2, 'scale2': run_scale2, 'hist': run_hist}
 GENS = [(gen_mix, 0.4), (gen_split, 0.2), (gen_separate, 0.1), (gen_move, 0.17), (gen_scale, 0.07), (gen_sum, 0.06)]
 GENS2 = [(gen_sep2, 0.2), (gen_move2, 0.2), (gen_op, 0.12), (gen_mix2, 0.22), (gen_split2, 0.12), (gen_sum2, 0.09), (gen_scale2, 0.05)]
 
@@ -938,3 +1673,9 @@ def run(rec, rng, tier, shard, nshards):
         case = rng.choices(names, weights)[0](rng)
         run_case(case, rec)
         if i % 1201 == 0: rec.sample(case)
+    # third generation (histories): appended so that the cases above are the same as before
+    n3 = 3000 if tier == 'quick' else 30000
+    for i in range(n3):
+        case = gen_hist(rng)
+        run_case(case, rec)
+        if i % 701 == 0: rec.sample(case)
